@@ -279,6 +279,30 @@ func runC19(c *Ctx) {
 			}
 			rcone(a, b, r1, r2, p)
 			lip(f, p, q)
+			if k%3 == 0 {
+				// samples EXACTLY in the planes through the ball centres perpendicular to the axis ((p-a)·(b-a) = 0 or |b-a|²),
+				// off the axis: dyadic, axis-aligned and oblique cones (a lattice sampler hits these planes, random probes never do)
+				da := vector3.New(math.Round(ctr.X()), math.Round(ctr.Y()), math.Round(ctr.Z()))
+				ax := [][3]float64{{2, 0, 0}, {0, 2, 0}, {0, 0, 2}, {1, 1, 0}, {2, 2, 1}}[c.Rng.Intn(5)]
+				db := da.Add(vector3.New(ax[0], ax[1], ax[2]))
+				perp := [][3]float64{{0, 1, 0}, {0, 0, 1}, {1, 0, 0}, {1, -1, 0}, {1, -1, 0}}
+				pi := 0
+				for i, a2 := range [][3]float64{{2, 0, 0}, {0, 2, 0}, {0, 0, 2}, {1, 1, 0}, {2, 2, 1}} {
+					if a2 == ax {
+						pi = i
+					}
+				}
+				pv := vector3.New(perp[pi][0], perp[pi][1], perp[pi][2])
+				s1, s2 := []float64{1, 0.5, 0.25, 1.5}[c.Rng.Intn(4)], []float64{0.5, 1, 1.5, 0.25}[c.Rng.Intn(4)]
+				for _, base := range []vector3.Float64{da, db} {
+					for _, m := range []float64{0.25, 0.5, 1, 1.25, 1.75} {
+						pp := base.Add(pv.Scale(m))
+						rcone(da, db, s1, s2, pp)
+						lip(sdf.RoundedCone(da, db, s1, s2), pp, pp.Add(vector3.New(ax[0], ax[1], ax[2]).Scale(0.015625)))
+					}
+				}
+				c.Note("rcone.exact_cap_plane")
+			}
 		}
 		// VarryingThicknessLine: 0..5 line points (fewer than two: panic), repeated points, nested radii
 		{
@@ -313,6 +337,24 @@ func runC19(c *Ctx) {
 			p, q := c.around(ctr, 4), c.around(ctr, 4)
 			if k > 0 && c.Rng.Intn(3) == 0 {
 				p = c.around(pts[c.Rng.Intn(k)].Point, 1)
+			}
+			if k >= 3 && c.Rng.Intn(3) == 0 {
+				// a STRAIGHT stroke with dyadic, exactly collinear points and radii that are NOT the linear
+				// interpolation of their neighbours (beads, waists): an interior vertex matters only through its radius
+				base := vector3.New(math.Round(ctr.X()), math.Round(ctr.Y()), math.Round(ctr.Z()))
+				dir := [][3]float64{{1, 0, 0}, {0, 1, 0}, {0, 0, 1}, {1, 1, 0}, {1, 2, -1}}[c.Rng.Intn(5)]
+				args = ""
+				for i := range pts {
+					t := float64(i) * 0.5
+					pts[i].Point = base.Add(vector3.New(dir[0]*t, dir[1]*t, dir[2]*t))
+					pts[i].Radius = []float64{0.25, 1, 0.125, 0.75, 0.25}[(i+c.Rng.Intn(2))%5]
+					args += " " + vF(pts[i].Point) + " " + F(pts[i].Radius)
+				}
+				// probe next to an interior vertex, at a distance between the radii a straightened stroke would have there
+				j := 1 + c.Rng.Intn(k-2)
+				off := c.unit3().Scale(pts[j].Radius * (0.6 + c.Rng.Float64()*0.6))
+				p = pts[j].Point.Add(off)
+				c.Note("varline.collinear_bead")
 			}
 			head := itoa(k) + args
 			var f sample.Vec3ToFloat
